@@ -1983,7 +1983,7 @@ class Exec:
                 p = ElemPtr(p.arr, bv(0))
             if isinstance(p, BlockPtr):      # the start of a heap block viewed as a pointer to its first element
                 p = ElemPtr(p.block.arr, bv(0))
-            if getattr(p, 'cast', None) and 'GenericArray<' in p.cast:
+            if (getattr(p, 'cast', None) and 'GenericArray<' in p.cast) or re.search(r"from_raw_parts(_mut)?::<'_, (\[T; \w+\]|GenericArray<T, N>)>", c):
                 # slice of chunks: n chunks of N elements each starting at element p.idx
                 s.require(st, z3.And(MULOK(n, s.N), ADDOK(p.idx, n * s.N),
                                      ULE(p.idx + n * s.N, p.arr.len)), 'from_raw_parts: chunk slice extends beyond the source', where)
@@ -2015,8 +2015,16 @@ class Exec:
             return s.drop_slice(st, args[0], where)
         if re.match(r'(ptr::)?drop_in_place::<T>$', c) and isinstance(args[0], ElemPtr):
             return s.drop_slice(st, Slice(args[0].arr, args[0].idx, args[0].idx + 1), where)
-        if re.search(r'(^|::)read::<(T|B)>$', c) or (re.match(r'^MaybeUninit::<T>::assume_init_read$', c) and isinstance(args[0], (ElemPtr, Elem))):
+        if re.search(r'(^|::)read(_unaligned)?::<(T|B)>$', c) or (re.match(r'^MaybeUninit::<T>::assume_init_read$', c) and isinstance(args[0], (ElemPtr, Elem))):
             p = args[0]
+            if isinstance(p, ArrRef) and re.search(r'(^|::)read(_unaligned)?::<B>$', c):
+                # `ptr::read(&a as *const A as *const B)` on a whole array (const_transmute without the union): a move of the whole object
+                st.calls += 1
+                new = Arr('Moved%d' % st.calls, p.arr.len)
+                st.status[new] = s.stat(st, p.arr)
+                st.status[p.arr] = UNINIT
+                st.events.append('ptr::read of the whole array %s as the target type (moved into %s)' % (p.arr.name, new.name))
+                return R(new)
             s.ev_move_out(st, p.arr, p.idx, where)
             return R(Elem(p.arr, p.idx))
         m = re.search(r'(^|::)read::<(MaybeUninit|ManuallyDrop)<GenericArray<', c)
